@@ -52,6 +52,14 @@ class TieBroken(Exception):
         self.what, self.detail = what, detail
 
 
+class Hang(Exception):
+    """a harness case did not return within the watchdog"""
+
+    def __init__(self, name, case):
+        super().__init__("%s: case %s outran the watchdog" % (name, case.get("id")))
+        self.name, self.case = name, case
+
+
 # ---------------------------------------------------------------- Coq
 def coq_make(targets, timeout=1500):
     """full .vo build of the given targets (and their dependency cone)."""
@@ -239,7 +247,7 @@ dashmap = { path = "../harness/vendor/dashmap" }
     return os.path.join(d, "h4"), os.path.join(d, "pls_h4")
 
 
-def run_h1(h1, cases, name, timeout=1200):
+def run_h1(h1, cases, name, timeout=1200, allow_hang=False):
     """cases: [{"id":..,"ops":[..]}] -> {id: obs list}"""
     d = os.path.join(CACHE, "cases")
     os.makedirs(d, exist_ok=True)
@@ -252,7 +260,17 @@ def run_h1(h1, cases, name, timeout=1200):
     if not os.path.exists(outp):
         raise RuntimeError("harness produced no output (rc=%s): %s" % (rc, out[-2000:]))
     res = json.load(open(outp))
-    return {r["id"]: r for r in res}, rc
+    got = {r["id"]: r for r in res}
+    if not allow_hang:
+        # the harness stops at the first case that outruns its watchdog: the callers that do not
+        # treat that themselves get it reported with the operations of that case as the replay
+        for c in cases:
+            if c["id"] in got and got[c["id"]].get("hang"):
+                raise Hang(name, c)
+        missing = [c["id"] for c in cases if c["id"] not in got]
+        if missing:
+            raise TieBroken("harness", "harness %s returned no result for cases %s (rc=%s): %s" % (name, missing[:5], rc, out[-600:]))
+    return got, rc
 
 
 # ---------------------------------------------------------------- cases -> Coq
